@@ -34,7 +34,7 @@
   positions returned by lookup               find_sound, find_eq_idxOf (small names); find_miss_big_suffix (F16-BIGSUFFIX)
   counts                                     deleteNth_hosts (.count), uniq_count, Good invariants
   hosts seen by EVERY live iterator          edit_refines_multi_new/_free/_reset/_next/_remove/_shift/_pop/_push/
-                                             _push_text/_delete_nth/_delete_host/_find/_uniq/_sort_reset;
+                                             _push_text/_delete_nth/_delete_host/_find/_uniq/_sort;
                                              one iterator: edit_refines_* (also remove, uniq, push text)
   duplicates removed, none lost              uniq_names, edit_refines_uniq (IF duplicate-free); uniq_keeps_duplicate (F16-UNIQ)
 
@@ -49,14 +49,18 @@
   three-way correspondence incl. the record dump).  Proved: the `qsort` step gives a permutation of the
   records in which each compares ≤ its successor (`sort_qsort_sorted`, repaired comparator D26), and with the
   reset it refines the plain list's `sort` for ANY number of live iterators (`edit_refines_multi_sort_reset`).
-  Not proved (correspondence + the spec's `sortOk` on every run): `hostlist_coalesce` / `hostlist_collapse`
-  keep the multiset of hosts and leave the (reset) iterators alone (`sort_coalesce_witness`: one instance);
-  duplicate-freedom after `uniq` (false: F16-UNIQ; true under a hypothesis that excludes mixed widths AND
-  digit-ending prefixes — not proved).
+  Proved since (round 2c): the WHOLE `hostlist_sort` keeps the multiset of hosts, the counter and the
+  well-formedness of the records (`sort_keeps_hosts`: one round of `hostlist_coalesce` rewrites [A..B], [C..D]
+  into [A..C], one-host records, [M..max] with the same numbers and multiplicities, `hostlist_collapse` joins
+  what continues), leaves every (reset) iterator where it is, and so refines the plain list's `sort` for ANY
+  number of live iterators: `edit_refines_multi_sort`.
+  Not proved: duplicate-freedom after `uniq` (false: F16-UNIQ; true under a hypothesis that excludes mixed
+  widths AND digit-ending prefixes — not proved).
   A push while the iterator stands AT THE END: `edit_refines_push_inside` (one iterator; `Inside` = it stands
   on a record that exists — what the repaired F16-ENDPUSH keeps true when `hostlist_next` answers NULL,
   `edit_refines_next_inside`), `edit_refines_push_end_next` (the next `hostlist_next` hands out the first
-  new host); `Inside` is carried through next / create / reset / push only, and for one iterator.
+  new host); `Inside` is carried through next / create / reset / push / remove (`edit_refines_remove_inside`;
+  while the list is not empty) — not through shift / pop / delete, and for one iterator only.
 -/
 import PdshVerif.Hostlist.LemmasFind
 import PdshVerif.Hostlist.LemmasUniq
@@ -70,6 +74,7 @@ import PdshVerif.Hostlist.EditMultiRemove2
 import PdshVerif.Hostlist.EditPushEnd
 import PdshVerif.Hostlist.EditSortRefine
 import PdshVerif.Hostlist.EditMultiText
+import PdshVerif.Hostlist.EditSortFull
 
 namespace PdshVerif.C16
 open PdshVerif.Hostlist PdshVerif.Gen
@@ -265,6 +270,11 @@ theorem edit_refines_next_inside (cfg : Cfg) (hfx : cfg.fixEndPush = true) (e : 
     (fresh : Bool) (h : Ref cfg e p c fresh) (hin : Inside e) (a : Option Str) (e' : EL)
     (hn : itNext cfg e 0 = .ok (a, e')) : Inside e' :=
   next_keeps_inside cfg hfx e p c fresh h hin a e' hn
+
+/-- `hostlist_remove` (repaired D19) leaves the iterator inside the list, unless the list is empty afterwards -/
+theorem edit_refines_remove_inside (cfg : Cfg) (hfix : cfg.fixRemoveDepth = true) (e : EL) (p : EditSpec.PL) (c : Nat)
+    (h : Ref cfg e p c true) (e' : EL) (hr : itRemove cfg e 0 = .ok e') : Inside e' ∨ e'.ranges = [] :=
+  remove_keeps_inside cfg hfix e p c h e' hr
 
 /-- the iterator ran out, a record is pushed: the next `hostlist_next` hands out its first host -/
 theorem edit_refines_push_end_next (cfg : Cfg) (hfs : cfg.fixIterSuffix = true) (e : EL) (p : EditSpec.PL) (c : Nat)
@@ -477,6 +487,21 @@ theorem edit_refines_multi_sort_reset (cfg : Cfg) (hfs : cfg.fixIterSuffix = tru
     EditSpec.sort p (sortReset cfg e).hosts = some ⟨(sortReset cfg e).hosts, p.cur.map fun (k, _) => (k, 0)⟩ ∧
       RefM cfg (sortReset cfg e) ⟨(sortReset cfg e).hosts, p.cur.map fun (k, _) => (k, 0)⟩ (fun _ => false) :=
   sortReset_refinesM cfg hfs e p fr h
+
+/-- `hostlist_sort` as a whole (`qsort`, `hostlist_coalesce`, `hostlist_collapse`): the same hosts with the
+    same multiplicities, the counter untouched, every record well formed — whenever it returns (the model's
+    only failure is the freed-record read that the repaired `hostrange_intersect` excludes) -/
+theorem sort_keeps_hosts (cfg : Cfg) (e e' : EL) (hg : e.Good) (h : sortE cfg e = .ok e') :
+    e'.hosts.Perm e.hosts ∧ e'.nhosts = e.nhosts ∧ e'.Good :=
+  sortE_hosts cfg e e' hg h
+
+/-- the WHOLE `hostlist_sort` with any number of live iterators: an admissible result for the plain list's
+    `sort` (same names, same multiplicities) and EVERY iterator starts over at the first host -/
+theorem edit_refines_multi_sort (cfg : Cfg) (hfs : cfg.fixIterSuffix = true) (e : EL) (p : EditSpec.PL)
+    (fr : Nat → Bool) (h : RefM cfg e p fr) (e' : EL) (hs : sortE cfg e = .ok e') :
+    EditSpec.sort p e'.hosts = some ⟨e'.hosts, p.cur.map fun (k, _) => (k, 0)⟩ ∧
+      RefM cfg e' ⟨e'.hosts, p.cur.map fun (k, _) => (k, 0)⟩ (fun _ => false) :=
+  sort_refinesM cfg hfs e p fr h e' hs
 
 /-- `a[5-9],a[1-6]` sorted: `hostlist_coalesce` cuts the overlap a5, a6 out and re-inserts it as one-host
     records, `hostlist_collapse` joins what continues: `a[1-5]`, `a5`, `a[6]`.. — 11 hosts before and after -/
